@@ -61,6 +61,8 @@ impl<'a> EvI<'a> {
         let v = match n {
             Node::Var(k) => Some(self.env[k as usize] as i128),
             Node::Const(b) => Some(f64::from_bits(b) as i128),
+            Node::Named("maxv") => Some(self.sem.max()),
+            Node::Named("minv") => Some(self.sem.min()),
             Node::Un(Op1::Neg, a) => self.val(a).and_then(|x| self.sem.norm(-x)),
             Node::Bin(op, a, b) => { let x = self.val(a); let y = self.val(b); match (x, y) { (Some(x), Some(y)) => match op {
                 Op2::Add => self.sem.norm(x + y), Op2::Sub => self.sem.norm(x - y), Op2::Mul => self.sem.norm(x * y),
@@ -82,5 +84,8 @@ impl<'a> EvI<'a> {
     }
 }
 
+// colour components: full() is the type's MAX
+impl vek::ops::ColorComponent for SymS { fn full() -> SymS { SymS(Sym::named("maxv")) } }
+impl vek::ops::ColorComponent for SymU { fn full() -> SymU { SymU(Sym::named("maxv")) } }
 impl From<Sym> for SymS { fn from(s: Sym) -> SymS { SymS(s) } }
 impl From<Sym> for SymU { fn from(s: Sym) -> SymU { SymU(s) } }
